@@ -135,6 +135,115 @@ pub fn c12_plans(_m: &mut Mon, ctx: &StepCtx, stats: &mut Stats, out: &mut Vec<V
     }
 }
 
+
+/// Direct probe of the two planning functions (the real `common.rs` code, called as the hub
+/// and the registry call it) at the delegation layout the run has just reached: boundary
+/// amounts around the layout's total and a few derived ones, in the registry's ascending
+/// order, the hub's descending order and one rotated (unsorted) order. A panic inside the
+/// function is a wasm trap for the calling contract and counts as a failure of the plan.
+pub fn c12_probe(_m: &mut Mon, ctx: &StepCtx, stats: &mut Stats, out: &mut Vec<Violation>) {
+    use basset_sei_validators_registry::common::{calculate_delegations, calculate_undelegations};
+    use basset_sei_validators_registry::registry::ValidatorResponse;
+    use cosmwasm_std::Uint128;
+    use std::panic::{catch_unwind, AssertUnwindSafe};
+    let reg = match &ctx.post.registry {
+        Some(r) if !r.is_empty() => r,
+        _ => return,
+    };
+    let changed = ctx.pre.registry.as_ref() != Some(reg);
+    if !changed && ctx.idx % 16 != 0 {
+        return;
+    }
+    stats.check("c12_probe_layout");
+    let n = reg.len();
+    let total: u128 = reg.iter().map(|v| v.total_delegated.u128()).sum();
+    let mut h = crate::rng::mix(&[ctx.idx as u64, total as u64, n as u64, 0xC12]);
+    let mut orders: Vec<Vec<ValidatorResponse>> = vec![reg.clone()];
+    let mut desc = reg.clone();
+    desc.sort_by(|a, b| b.total_delegated.cmp(&a.total_delegated));
+    orders.push(desc);
+    if n > 2 {
+        let mut rot = reg.clone();
+        rot.rotate_left(1 + (crate::rng::splitmix64(&mut h) as usize) % (n - 1));
+        orders.push(rot);
+    }
+    let nn = n as u128;
+    let mut amounts: Vec<u128> = vec![0, 1, nn.saturating_sub(1), nn, total, total.saturating_sub(1), total.saturating_sub(nn.saturating_sub(1)), total.saturating_sub(nn), total / 2, total + 1];
+    for _ in 0..3 {
+        let r = crate::rng::splitmix64(&mut h) as u128;
+        amounts.push(if total > 0 { r % (total + 1) } else { r % 1000 });
+    }
+    amounts.sort();
+    amounts.dedup();
+    let was = crate::wasm::IN_CONTRACT.with(|c| c.replace(true));
+    for (oi, order) in orders.iter().enumerate() {
+        let held: Vec<u128> = order.iter().map(|v| v.total_delegated.u128()).collect();
+        for &a in &amounts {
+            // --- undelegation plan
+            let r = catch_unwind(AssertUnwindSafe(|| calculate_undelegations(Uint128::new(a), order.clone())));
+            stats.check("c12_probe_undelegation");
+            match r {
+                Err(_) => viol(out, "C12", "undelegation_plan_fails_only_beyond_total", ctx.idx, "registry.calculate_undelegations:probe:trap", format!("calculate_undelegations({}, {:?}) [order {}] aborted (wasm trap)", a, held, oi)),
+                Ok(Err(e)) => {
+                    if a <= total {
+                        viol(out, "C12", "undelegation_plan_fails_only_beyond_total", ctx.idx, "registry.calculate_undelegations:probe:failed", format!("calculate_undelegations({}, {:?}) [order {}] failed: {}", a, held, oi, e));
+                    } else {
+                        stats.probe("c12_probe_request_beyond_total_refused");
+                    }
+                }
+                Ok(Ok(plan)) => {
+                    if a > total {
+                        viol(out, "C12", "undelegation_within_total", ctx.idx, "registry.calculate_undelegations:probe:exceeds_total", format!("calculate_undelegations({}, {:?}) accepted a request beyond the total", a, held));
+                        continue;
+                    }
+                    let sum: u128 = plan.iter().map(|x| x.u128()).sum();
+                    if plan.len() != n || sum != a {
+                        viol(out, "C12", "undelegation_plan_removes_exact_amount", ctx.idx, "registry.calculate_undelegations:probe:amount", format!("calculate_undelegations({}, {:?}) [order {}] = {:?} sums to {}", a, held, oi, plan, sum));
+                        continue;
+                    }
+                    let floor = (total - a) / nn;
+                    for (i, p) in plan.iter().enumerate() {
+                        if p.u128() > held[i] {
+                            viol(out, "C12", "never_undelegate_more_than_held", ctx.idx, "registry.calculate_undelegations:probe:more_than_held", format!("calculate_undelegations({}, {:?}) [order {}] = {:?}", a, held, oi, plan));
+                        } else if p.u128() > 0 && held[i] - p.u128() < floor {
+                            viol(out, "C12", "no_validator_pushed_below_even_share", ctx.idx, "registry.calculate_undelegations:probe:below_share", format!("calculate_undelegations({}, {:?}) [order {}] = {:?} leaves less than {}", a, held, oi, plan, floor));
+                        }
+                    }
+                    if a == total && total > 0 {
+                        stats.probe("c12_probe_full_undelegation");
+                    }
+                }
+            }
+            // --- delegation plan
+            let r = catch_unwind(AssertUnwindSafe(|| calculate_delegations(Uint128::new(a), order)));
+            stats.check("c12_probe_delegation");
+            match r {
+                Err(_) => viol(out, "C12", "delegation_plan_never_fails", ctx.idx, "registry.calculate_delegations:probe:trap", format!("calculate_delegations({}, {:?}) [order {}] aborted (wasm trap)", a, held, oi)),
+                Ok(Err(e)) => viol(out, "C12", "delegation_plan_never_fails", ctx.idx, "registry.calculate_delegations:probe:failed", format!("calculate_delegations({}, {:?}) [order {}] failed: {}", a, held, oi, e)),
+                Ok(Ok((left, plan))) => {
+                    let sum: u128 = plan.iter().map(|x| x.u128()).sum();
+                    if plan.len() != n || !left.is_zero() || sum != a {
+                        viol(out, "C12", "delegation_plan_distributes_whole_amount", ctx.idx, "registry.calculate_delegations:probe:sum", format!("calculate_delegations({}, {:?}) [order {}] = ({}, {:?})", a, held, oi, left, plan));
+                        continue;
+                    }
+                    let t = total + a;
+                    let ceil = (t + nn - 1) / nn;
+                    for (i, p) in plan.iter().enumerate() {
+                        let p = p.u128();
+                        if p > 0 && held[i] * nn > t {
+                            viol(out, "C12", "nothing_to_validator_above_even_share", ctx.idx, "registry.calculate_delegations:probe:above_share", format!("calculate_delegations({}, {:?}) [order {}] = {:?}", a, held, oi, plan));
+                        }
+                        if p > 0 && held[i] + p > ceil {
+                            viol(out, "C12", "no_validator_lifted_above_even_share", ctx.idx, "registry.calculate_delegations:probe:lifted", format!("calculate_delegations({}, {:?}) [order {}] = {:?} above ceil {}", a, held, oi, plan, ceil));
+                        }
+                    }
+                }
+            }
+        }
+    }
+    crate::wasm::IN_CONTRACT.with(|c| c.set(was));
+}
+
 // ======================================================================= C13
 
 pub fn c13_remove_validator(_m: &mut Mon, ctx: &StepCtx, stats: &mut Stats, out: &mut Vec<Violation>) {
